@@ -34,7 +34,7 @@ int main() {
     while (is >> w) a.push_back(parse(w));
     const Entry* e = nullptr;
     for (const auto& t : table) {
-      if (law == t.name) e = &t;
+      if (t.f != nullptr && law == t.name) e = &t;
     }
     if (e == nullptr || a.size() != e->n) {
       std::cout << "bad-op\n";
